@@ -13,6 +13,8 @@ CONSTANTS
   MaxSpur = 0
   Endings = {"ctxdrop"}
   SeiSet = {"never"}
+  ReR = {2}
+  ReM = {0}
   RecordSched = FALSE
   Dev = {}
 INVARIANTS TypeOK Inv_C14 NoLostWakeup
